@@ -1,0 +1,33 @@
+//go:build verif
+
+package cmd
+
+import (
+	"fmt"
+
+	"github.com/AdguardTeam/AdGuardDNS/internal/dnssvc"
+	"gopkg.in/yaml.v2"
+)
+
+// Verification hook for property C04: the production wiring of the response
+// cache.  [VerifC04CacheConfig] parses a whole configuration file the way
+// [Main] does, runs the start-up validation of its cache section and converts
+// it with the unchanged [cacheConfig.toInternal], which is what
+// [builder.initDNS] hands to [dnssvc.NewHandlers].
+
+// VerifC04CacheConfig returns the cache configuration of the DNS service for
+// the configuration file confYAML.
+func VerifC04CacheConfig(confYAML []byte) (conf *dnssvc.CacheConfig, err error) {
+	c := &configuration{}
+	err = yaml.Unmarshal(confYAML, c)
+	if err != nil {
+		return nil, fmt.Errorf("parsing: %w", err)
+	}
+
+	err = c.Cache.validate()
+	if err != nil {
+		return nil, fmt.Errorf("cache: %w", err)
+	}
+
+	return c.Cache.toInternal(), nil
+}
